@@ -325,10 +325,15 @@ var globalKeys = [][]string{
 	{"oauth", "oauth2_proxy"},
 }
 
-func genGlobal(rng *rand.Rand) *api.ConfigMap {
+func genGlobalEmpty() *api.ConfigMap {
 	cm := &api.ConfigMap{}
 	cm.Namespace, cm.Name = "ingress-controller", "haproxy-ingress"
 	cm.Data = map[string]string{}
+	return cm
+}
+
+func genGlobal(rng *rand.Rand) *api.ConfigMap {
+	cm := genGlobalEmpty()
 	for i, n := 0, rng.Intn(4); i < n; i++ {
 		a := pick(rng, globalKeys)
 		cm.Data[a[0]] = a[1+rng.Intn(len(a)-1)]
